@@ -13,7 +13,7 @@ Definition answer_text (fuel : nat) (q : term) (s : subst) : res str :=
 Theorem solve_reports kb fuel nd w nd' txt w' :
   solve fuel kb nd w = Ok (nd', txt, w') ->
   exists sol c w1,
-    next kb fuel nd (w_set_flag w false) = Ok (nd', sol, c, w1) /\
+    next kb fuel fuel nd (w_set_flag w false) = Ok (nd', sol, c, w1) /\
     w' = snd (query_stopped w1) /\
     if fst (query_stopped w1) then txt = timeout_msg
     else match sol with
@@ -22,7 +22,7 @@ Theorem solve_reports kb fuel nd w nd' txt w' :
          end.
 Proof.
   unfold solve. intro H.
-  destruct (next kb fuel nd (w_set_flag w false)) as [[[[n1 o1] b1] w1]| |] eqn:E; cbn [bind] in H; try discriminate.
+  destruct (next kb fuel fuel nd (w_set_flag w false)) as [[[[n1 o1] b1] w1]| |] eqn:E; cbn [bind] in H; try discriminate.
   destruct (query_stopped w1) as [st w2] eqn:Eq. exists o1, b1, w1.
   destruct st.
   - inversion H; subst. rewrite Eq. simpl. auto.
@@ -44,13 +44,13 @@ Qed.
    true: whatever that last request returned is dropped). *)
 Inductive Run (kb : kbase) (q : term) : nat -> node -> world -> list str -> node -> world -> bool -> Prop :=
 | Run_complete fuel nd w nd' c w1 :
-    next kb fuel nd w = Ok (nd', None, c, w1) -> fst (query_stopped w1) = false ->
+    next kb fuel fuel nd w = Ok (nd', None, c, w1) -> fst (query_stopped w1) = false ->
     Run kb q fuel nd w [] nd' (snd (query_stopped w1)) false
 | Run_stopped fuel nd w nd' sol c w1 :
-    next kb fuel nd w = Ok (nd', sol, c, w1) -> fst (query_stopped w1) = true ->
+    next kb fuel fuel nd w = Ok (nd', sol, c, w1) -> fst (query_stopped w1) = true ->
     Run kb q fuel nd w [] nd' (snd (query_stopped w1)) true
 | Run_answer f nd w nd1 s c w1 txt l nd' w' b :
-    next kb (S f) nd w = Ok (nd1, Some s, c, w1) -> fst (query_stopped w1) = false ->
+    next kb (S f) (S f) nd w = Ok (nd1, Some s, c, w1) -> fst (query_stopped w1) = false ->
     answer_text (S f) q s = Ok txt ->
     Run kb q f nd1 (snd (query_stopped w1)) l nd' w' b ->
     Run kb q (S f) nd w (txt :: l) nd' w' b.
@@ -61,7 +61,7 @@ Lemma solve_all_loop_runs kb q : forall fuel nd acc w nd' l w',
 Proof.
   induction fuel as [|f IH]; intros nd acc w nd' l w' H; [discriminate|].
   cbn [solve_all_loop] in H.
-  destruct (next kb (S f) nd w) as [[[[n1 o1] b1] w1]| |] eqn:E; cbn [bind] in H; try discriminate.
+  destruct (next kb (S f) (S f) nd w) as [[[[n1 o1] b1] w1]| |] eqn:E; cbn [bind] in H; try discriminate.
   destruct (query_stopped w1) as [st w2] eqn:Eq.
   destruct st.
   - inversion H; subst. exists [], true. split; [|now rewrite app_nil_r].
